@@ -126,6 +126,10 @@ class Gen:
                         keys.append(kk)
                         kv.append([kk, vs[(j + n) % len(vs)]])
                 out.append({"kv": kv})
+                if len(kv) > 1:
+                    # the same pairs inserted in the opposite order (the iteration order of an unordered_map, and
+                    # hence the order on the wire, depends on it)
+                    out.append({"kv": kv[::-1]})
             return out
         if k in ("ref", "wrap"):
             return self.values(S["e"], depth)
